@@ -1,9 +1,9 @@
 #!/bin/bash
-# Build the fact extractor (offline, nightly toolchain with rustc-dev) and warm the dependency cache.
+# Build the fact extractor (offline, nightly toolchain with rustc-dev) and warm the fact/dependency caches.
 set -e
 cd "$(dirname "$0")"
 export CARGO_NET_OFFLINE=true
 (cd driver && cargo build --offline 2>&1 | tail -3)
 test -x driver/target/debug/scpi-facts
-python3 -m sa.extract dflt >/dev/null
+python3 -m sa.extract dflt examples witness noalloc >/dev/null
 echo "setup ok"
